@@ -7,10 +7,11 @@ package simrt
 
 import (
 	"bytes"
-	"os"
 	"fmt"
 	"hash/fnv"
+	"os"
 	"runtime"
+	"runtime/debug"
 	"sort"
 	"strconv"
 	"strings"
@@ -198,9 +199,33 @@ func Go(site string, f func()) {
 			unadopt(id)
 			RaceOn()
 		}()
+		defer catchPanic(child)
 		GateN("start", 0, nil)
 		f()
 	}()
+}
+
+// TaskPanic is a panic that escaped a simulated task. In a real process it
+// would have crashed the program; the simulator records it and lets the other
+// tasks go on so that the run can be reported.
+type TaskPanic struct {
+	Task  string
+	Site  string
+	Value string
+	Stack string
+}
+
+var Panics []TaskPanic
+
+//go:norace
+func catchPanic(t *Task) {
+	if r := recover(); r != nil {
+		RaceOff()
+		smu.Lock()
+		Panics = append(Panics, TaskPanic{Task: t.ID, Site: t.Site, Value: fmt.Sprint(r), Stack: string(debug.Stack())})
+		smu.Unlock()
+		RaceOn()
+	}
 }
 
 // AfterFunc replaces time.AfterFunc: the callback runs as a task with a
@@ -228,6 +253,7 @@ func AfterFunc(site string, d time.Duration, f func()) *time.Timer {
 			unadopt(id)
 			RaceOn()
 		}()
+		defer catchPanic(t)
 		GateN("start", 0, nil)
 		f()
 	})
